@@ -79,6 +79,9 @@ def _directed():
     # D5: HW jumps over a segment boundary while the reader waits at the end of the old segment
     out.append(APP + APP + [{'a': 'SetHW', 'h': 1}, {'a': 'NewReader', 'r': 'r1', 's': 0}] + [S('r1')] * 5 +
                APP + APP + APP + [{'a': 'SetHW', 'h': 3}] + [S('r1')] * 8 + [{'a': 'SetHW', 'h': 4}] + [S('r1')] * 6)
+    # D6: two HW writers at the same time (fast path + commit loop), readers waiting and at the gate
+    out.append(APP + APP + APP + [{'a': 'NewReader', 'r': 'r1', 's': 0}] + [S('r1')] * 3 +
+               [{'a': 'SetHW2', 'h1': 0, 'h2': 1}] + [S('r1')] * 6 + [{'a': 'SetHW2', 'h1': 2, 'h2': 1}] + [S('r1')] * 6)
     res = []
     for i, b in enumerate(out):
         cap = 2
@@ -236,6 +239,14 @@ def _rd_features(beh):
                         own.add(r)
         elif a['a'] in ('Append', 'AppendSet') and survivors:
             f.add('append')
+        elif a['a'] == 'Reopen':
+            hwv = core.tlaval.state_var(pre['body'], 'hw')
+            if hwv >= 0:
+                f.add('reopen-with-hw')
+                if hwv == core.tlaval.state_var(pre['body'], 'log')[0]['off']:
+                    f.add('reopen-with-hw-at-first-offset')
+            for z in (survivors, delivered, ahead, own):
+                z.clear()
         elif a['a'] == 'NewReader':
             for z in (survivors, delivered, ahead, own):
                 z.discard(a['r'])
@@ -253,14 +264,29 @@ def lockstep(rep, rng, seed, num, keep):
     from checks import c01
     # free random walk of the reader mix + the scenario family "log rewritten under a live reader" (same actions,
     # phased by the step counter)
-    sims = _retry(core.tlc_simulate, 'MC_CommitLogRd.tla', 'Sim_CommitLogRd.cfg', num * 3 // 5, 16, seed + 31)
-    sims += _retry(core.tlc_simulate, 'MC_CommitLogRd.tla', 'Sim_CommitLogRdFam.cfg', num * 2 // 5, 15, seed + 37)
+    sims = _retry(core.tlc_simulate, 'MC_CommitLogRd.tla', 'Sim_CommitLogRd.cfg', num // 2, 16, seed + 31)
+    sims += _retry(core.tlc_simulate, 'MC_CommitLogRd.tla', 'Sim_CommitLogRdFam.cfg', num * 3 // 10, 15, seed + 37)
+    # scenario family "clean close/reopen early in the life of the log" (the HW must survive it)
+    sims += _retry(core.tlc_simulate, 'MC_CommitLogRd.tla', 'Sim_CommitLogRdFam2.cfg', num // 5, 10, seed + 41)
     sims = [b for b in sims if len(b) > 1 and any(st['last']['a'] in ('Drain', 'Tail') for st in b[1:])]
     feats = [_rd_features(b) for b in sims]
-    special = {'hwseg-rewritten-ahead-of-reader', 'own-segment-rewritten-after-delivery'}
-    order = sorted(range(len(sims)), key=lambda i: (-len(feats[i] & special), -len(feats[i] & {'trunc', 'append', 'drain'}),
-                                                    -len(feats[i]), i))
-    order = order[:keep * 5 // 6] + rng.sample(order[keep * 5 // 6:], min(keep // 6, max(0, len(order) - keep * 5 // 6)))
+    # selection by quota per feature (so that no family crowds out another), then the generic ones, then random
+    quotas = [('hwseg-rewritten-ahead-of-reader', keep * 3 // 10), ('own-segment-rewritten-after-delivery', keep // 5),
+              ('reopen-with-hw-at-first-offset', keep // 8), ('reopen-with-hw', keep // 8)]
+    chosen, seen = [], set()
+    for feat, q in quotas:
+        cand = [i for i in range(len(sims)) if feat in feats[i] and i not in seen]
+        cand.sort(key=lambda i: (-len(feats[i]), i))
+        for i in cand[:q]:
+            chosen.append(i)
+            seen.add(i)
+    rest = sorted((i for i in range(len(sims)) if i not in seen),
+                  key=lambda i: (-len(feats[i] & {'trunc', 'append', 'drain'}), -len(feats[i]), i))
+    room = max(0, keep - len(chosen))
+    chosen += rest[:room * 2 // 3]
+    tail = rest[room * 2 // 3:]
+    chosen += rng.sample(tail, min(room - room * 2 // 3, len(tail)))
+    order = chosen
     behaviours = []
     fmap = {}
     for k, i in enumerate(sorted(order)):
@@ -276,7 +302,7 @@ def lockstep(rep, rng, seed, num, keep):
         if kind == 'I':
             rep.drift({'behaviour': tid, 'line': line, 'action': action, 'what': name, 'spec': 'CommitLog'})
             continue
-        if action not in ('Drain', 'SetHW', 'NewReader', 'Truncate') and name == 'step':
+        if action not in ('Drain', 'SetHW', 'NewReader', 'Truncate', 'Reopen') and name == 'step':
             continue            # the append steps themselves are judged by the C01 check
         bad.setdefault(tid, []).append((line, action, name))
     for tid, fl in bad.items():
@@ -291,6 +317,66 @@ def lockstep(rep, rng, seed, num, keep):
             hist[x] = hist.get(x, 0) + 1
     rep.cov['lockstep_reader_features'] = hist
     return behaviours, res, fmap
+
+
+def subscriber_level(rep, rng, seed, num):
+    """C03 at the subscriber level (partition.go subscribe loop over the committed reader): behaviours of SubRo.tla
+    (acknowledged publishes, an uncommitted tail, commit, the partition made read-only, subscriptions without a stop
+    position from any offset) executed by C10's lock-step driver on a real one-node server (reused, not duplicated)
+    and judged by Trace_SubRo (deliveries consecutive and <= HW, HW monotone, a subscription is ended only with
+    "end of read-only partition" after it received the whole log)."""
+    from checks import c10
+    sims = _retry(core.tlc_simulate, 'SubRo.tla', 'Sim_SubRo.cfg', num, 12, seed + 43)
+    behaviours = []
+    for i, beh in enumerate(sims):
+        steps, subs, keyn = [], [], 0
+        for st in beh[1:]:
+            a = st['last']
+            if a['a'] in ('Publish', 'Tail'):
+                keys = []
+                for _ in range(a['k']):
+                    keyn += 1
+                    keys.append('abcdefghij'[keyn % 10])
+                steps.append({'a': a['a'], 'keys': keys})
+            elif a['a'] == 'Commit':
+                steps.append({'a': 'Commit'})
+            elif a['a'] == 'Readonly':
+                steps.append({'a': 'Readonly', 'b': True})
+            elif a['a'] == 'Sub':
+                subs.append(a['id'])
+                steps.append({'a': 'Sub', 'id': a['id'], 'n': -1,
+                              'req': {'start': 'OFFSET', 'so': a['so'], 'stop': 'ON_CANCEL', 'rev': False}})
+            elif a['a'] == 'Drain':
+                steps.append({'a': 'Drain', 'id': a['id'], 'n': -1})
+        if not subs:
+            continue
+        # at the end everything is committed and every subscription is drained once more
+        steps.append({'a': 'Commit'})
+        steps += [{'a': 'Drain', 'id': s, 'n': -1} for s in subs]
+        behaviours.append({'id': 700000 + i, 'cfg': {'compact': False, 'seg': rng.choice([0, 2, 3])}, 'steps': steps})
+    with core.scratch('c03sub') as d:
+        trace = c10.execute(behaviours, d, 'c03')
+        res = _retry(core.tlc_trace, 'Trace_SubRo.tla', 'Trace_SubRo.cfg', trace)
+        lines = core.read_ndjson(trace)
+    by_id = {b['id']: b for b in behaviours}
+    bad = {}
+    for kind, tid, line, action, name in res['fails']:
+        if kind == 'P':
+            bad.setdefault(tid, []).append((line, action, name))
+    for tid, fl in bad.items():
+        fl.sort()
+        line, action, name = fl[0]
+        rep.classify('C03|%s|%s|subscriber' % (name, action),
+                     'subscriber level (one-node server): first failing step: line %d action %s check %s' % (line, action, name),
+                     {'kind': 'subscriber', 'behaviours': [by_id[tid]]})
+    # as observed: subscriptions that met an uncommitted tail on a read-only partition
+    feat = set()
+    for e in lines:
+        if e['a'] in ('Sub', 'Drain') and e['st']['ro'] and e['st']['log'] and e['st']['hw'] < e['st']['log'][-1]['off']:
+            feat.add(e['t'])
+    rep.cov['subscriber_level'] = {'behaviours': len(behaviours), 'lines': res['validated'],
+                                   'readonly_with_uncommitted_tail_under_subscription': len(feat)}
+    return behaviours, res, feat
 
 
 def stress_rounds(rng, n, msgs):
@@ -353,8 +439,15 @@ def run(rep, tier, seed, replay):
                 trace = c01.execute(obj['behaviours'], d)
                 res = core.tlc_trace('Trace_CommitLogRd.tla', 'Trace_CommitLogRd.cfg', trace)
                 for kind, tid, line, action, name in res['fails']:
-                    if kind == 'P' and (action in ('Drain', 'SetHW', 'NewReader', 'Truncate') or name != 'step'):
+                    if kind == 'P' and (action in ('Drain', 'SetHW', 'NewReader', 'Truncate', 'Reopen') or name != 'step'):
                         rep.classify('C03|%s|%s|lockstep' % (name, action), 'lock-step replay line %d' % line, obj)
+            elif obj.get('kind') == 'subscriber':
+                from checks import c10
+                trace = c10.execute(obj['behaviours'], d, 'c03')
+                res = core.tlc_trace('Trace_SubRo.tla', 'Trace_SubRo.cfg', trace)
+                for kind, tid, line, action, name in res['fails']:
+                    if kind == 'P':
+                        rep.classify('C03|%s|%s|subscriber' % (name, action), 'subscriber level line %d' % line, obj)
             elif obj.get('kind') == 'stress':
                 trace = execute_stress(obj['rounds'], d, race=False)
                 res, bad, evs = judge_stress(obj['rounds'], trace)
@@ -399,7 +492,7 @@ def run(rep, tier, seed, replay):
         if not res['violated']:
             raise core.Inconclusive('the seeded model defect (non-atomic split) was not found by TLC')
     # 2.-4. behaviours of the specification, replayed through the gates, judged by TLC
-    num = 600 if not thorough else 8000
+    num = 500 if not thorough else 8000
     depth = 60 if not thorough else 80
     behaviours, tr, feats, bad = gated_campaign(rep, tier, seed, num, depth, extra=_directed())
     rep.cov['traces_validated_against_impl'] = len(behaviours)
@@ -414,12 +507,17 @@ def run(rep, tier, seed, replay):
             hist[x] = hist.get(x, 0) + 1
     rep.cov['race_windows_crossed'] = hist
     # (a) sequential cases through C01's lock-step driver
-    lb, lres, lfeat = lockstep(rep, rng, seed, *((3000, 360) if not thorough else (12000, 2500)))
+    lb, lres, lfeat = lockstep(rep, rng, seed, *((3000, 300) if not thorough else (12000, 2500)))
     rep.cov['lockstep_behaviours_with_readers'] = len(lb)
     rep.cov['distinct_nontrivial'] += len({core.sha(b['steps']) for b in lb
                                            if {'trunc', 'append', 'drain'} <= lfeat[b['id']]})
     rep.cov['traces_validated_against_impl'] += len(lb)
     rep.cov['trace_lines_validated'] += lres['validated']
+    # (a') subscriber level on a one-node server through C10's driver
+    sb, sres, sfeat = subscriber_level(rep, rng, seed, 120 if not thorough else 1500)
+    rep.cov['traces_validated_against_impl'] += len(sb)
+    rep.cov['trace_lines_validated'] += sres['validated']
+    rep.cov['distinct_nontrivial'] += len({core.sha(b['steps']) for b in sb if b['id'] in sfeat})
     # 5. stress with real schedules (plain and with the race detector)
     n_rounds = 8 if not thorough else 60
     msgs = 250 if not thorough else 600
